@@ -123,7 +123,7 @@ Section Agree.
     destruct (int_of_text t); reflexivity.
   Qed.
 
-  Lemma int_agree : forall k j v, sonic_int Jit k j v = std_int k j v.
+  Lemma int_agree : forall k j v, sonic_int k j v = std_int k j v.
   Proof.
     intros k j v. unfold sonic_int, std_int. destruct j; try reflexivity.
     destruct (int_of_text text); [|reflexivity]. rewrite range_op_spec. reflexivity.
@@ -229,7 +229,7 @@ Section Agree.
 
   Theorem bind_agree_all : (forall t, Pty t) /\ (forall fs, Pfs fs).
   Proof.
-    Ltac step := cbn [sonic_bind std_bind sonic_field std_field is_opt negb andb fnames sonic_f32].
+    Ltac step := cbn [sonic_bind std_bind sonic_field std_field is_opt negb andb fnames sonic_f32 is_fnil].
     assert (H : forall t, Pty t); [|split; [exact H|]].
     - apply (ty_mut Pty Pfs); unfold Pty, Pfs.
       + (* TBool *) intros _ j v _ _. destruct j; reflexivity.
@@ -315,9 +315,9 @@ Section Agree.
             - destruct (o_disallow_unknown o); reflexivity.
             - inversion SO as [|? ? [[s Hs] _] SO']; subst. simpl in Hs. rewrite Hs. step.
               destruct (o_disallow_unknown o) eqn:D; [reflexivity|]. rewrite IHl by assumption. reflexivity. }
-          rewrite E0. destruct (o_disallow_unknown o) eqn:D; [|reflexivity].
+          cbn [is_fnil]. rewrite E0. destruct (o_disallow_unknown o) eqn:D; [|reflexivity].
           destruct l; reflexivity.
-        * rewrite E. reflexivity.
+        * cbn [is_fnil]. rewrite E. reflexivity.
       + (* TAny *) intros _ j v S G. step. destruct j; try reflexivity; apply any_agree; assumption.
       + (* TRaw *) intros F. discriminate.
       + (* TUnm *) intros F. discriminate.
